@@ -1373,3 +1373,268 @@ Definition base_at (ts : list (track XQ)) (i : nat) : XQ := match nth_error ts i
 Definition example_intrinsic : list (track XQ) :=
   q_axis_full [px_track 100; mm_track SAuto SAuto; mm_track SMinContent SMinContent; px_track 30] (SLength (Fin 10))
     (Definite (Fin 400)) (Some (Fin 400)) [(0%nat, 1%nat, Fin 50); (1%nat, 2%nat, Fin 120); (3%nat, 1%nat, Fin 20)].
+
+(* ==================================================================================================================
+   Termination of distribute_space_up_to_limits in general (exact arithmetic): any affected-filter, non-negative
+   finite proportions (1 or flex factors), finite affected property, finite or +infinite limits.  Every iteration
+   that does not end the loop removes a growable track or exhausts the space: G + 1 iterations suffice. *)
+Section GenDistribute.
+  Variable aff : track XQ -> bool.
+  Variables p prop limit : track XQ -> XQ.
+  Hypothesis aff_inc : forall t x, aff (set_incurred t x) = aff t.
+  Hypothesis p_inc : forall t x, p (set_incurred t x) = p t.
+  Hypothesis prop_inc : forall t x, prop (set_incurred t x) = prop t.
+  Hypothesis limit_inc : forall t x, limit (set_incurred t x) = limit t.
+
+  Definition wt (t : track XQ) : Prop :=
+    (exists b, prop t = Fin b) /\ (exists i, incurred t = Fin i /\ 0 <= i) /\ (exists f, p t = Fin f /\ 0 <= f) /\
+    (limit t = PInf \/ exists l, limit t = Fin l).
+
+  Definition grow : track XQ -> bool := growable aff prop limit.
+  Definition GG (l : list (track XQ)) : nat := length (filter grow l).
+  Definition gstep := distribute_step aff p prop limit.
+  Definition gloop := distribute_loop aff p prop limit.
+  Definition room (t : track XQ) : XQ := x_div (x_sub (limit t) (prop t)) (p t).
+  Definition qf_of (t : track XQ) : Q := val (p t).
+  Fixpoint fsumq (l : list (track XQ)) : Q := match l with [] => 0 | t :: r => qf_of t + fsumq r end.
+
+  Lemma psum_fin (g : list (track XQ)) : Forall wt g -> exists s, @fsum XQ _ (map p g) = Fin s /\ s == fsumq g /\ 0 <= s.
+  Proof.
+    intro Hw. destruct (fsum_fin (map p g)) as [s [E1 E2]].
+    - apply Forall_map. eapply Forall_impl; [|exact Hw]. intros t [_ [_ [[f [Ef _]] _]]]. rewrite Ef. exact I.
+    - exists s. split; [exact E1|]. assert (Hq : qsum (map val (map p g)) == fsumq g /\ 0 <= fsumq g).
+      { clear E1 E2. induction Hw as [|t r Ht Hr IH]; simpl; [split; lra|]. destruct IH as [I1 I2].
+        destruct Ht as [_ [_ [[f [Ef Hf]] _]]]. unfold qf_of. rewrite Ef. simpl. split; lra. }
+      destruct Hq. split; lra.
+  Qed.
+
+  (* the head-room of a growable track: a positive finite number (then the proportion is positive) or +infinity *)
+  Lemma room_cases t : wt t -> grow t = true ->
+    room t = PInf \/
+    exists r f l b, room t = Fin r /\ 0 < r /\ p t = Fin f /\ 0 < f /\ limit t = Fin l /\ prop t = Fin b /\ r * f == l - b.
+  Proof.
+    intros [[b Eb] [[i [Ei Hi]] [[f [Ef Hf]] Hl]]] Hg. unfold grow, growable in Hg. apply andb_true_iff in Hg. destruct Hg as [Hg _].
+    unfold room. rewrite Eb, Ef, Ei in *. xq0. destruct Hl as [El|[l El]]; rewrite El in *.
+    - left. cbn [x_sub x_neg x_add x_div].
+      destruct (Qlt_le_dec 0 f) as [Hp|Hz]; [rewrite (q_sign_pos f Hp); reflexivity|].
+      assert (Hf0 : f == 0) by lra. rewrite (q_sign_zero f Hf0). reflexivity.
+    - cbn [x_add] in Hg. apply x_ltb_fin in Hg. cbn [x_sub x_neg x_add x_div].
+      destruct (Qlt_le_dec 0 f) as [Hp|Hz].
+      + right. rewrite (q_sign_pos f Hp). exists ((l + - b) / f), f, l, b. repeat split; auto; try reflexivity.
+        * apply Qlt_shift_div_l; [exact Hp|lra].
+        * field. lra.
+      + left. assert (Hf0 : f == 0) by lra. rewrite (q_sign_zero f Hf0). cbn [inf_of_sign].
+        assert (Hs : q_sign (l + - b) = Gt) by (apply q_sign_pos; lra). rewrite Hs. reflexivity.
+  Qed.
+
+  Lemma lb_min_by_first (xs : list XQ) : xs <> [] -> Forall lb xs ->
+    lb (min_by_first xs) /\ In (min_by_first xs) xs /\ forall x, In x xs -> x_leb (min_by_first xs) x = true.
+  Proof.
+    destruct xs as [|x0 r]; [congruence|]. intros _ Hl. inversion Hl as [|? ? H0 Hr]; subst. unfold min_by_first.
+    assert (Hgen : forall acc, lb acc -> Forall lb r ->
+              let m := fold_left (fun acc y => if ltb y acc then y else acc) r acc in
+              lb m /\ (m = acc \/ In m r) /\ x_leb m acc = true /\ forall x, In x r -> x_leb m x = true).
+    { clear. induction r as [|y r IH]; intros acc Ha Hr; cbn [fold_left].
+      - repeat split; auto; try (apply x_leb_refl_lb; exact Ha); try (intros x []).
+      - inversion Hr as [|? ? Hy Hr']; subst. xq0. destruct (x_ltb y acc) eqn:E.
+        + destruct (IH y Hy Hr') as [I1 [I2 [I3 I4]]]. split; [exact I1|]. split; [destruct I2; [right; left; auto|right; right; auto]|].
+          assert (Hya : x_leb y acc = true) by (destruct y, acc; simpl in *; try contradiction; try discriminate; auto;
+                                                  apply negb_true_iff in E; apply Qle_bool_false in E; apply Qle_bool_iff; lra).
+          split; [eapply x_leb_trans; eauto|]. intros x [Ex|Hx]; [subst; exact I3|apply I4; exact Hx].
+        + destruct (IH acc Ha Hr') as [I1 [I2 [I3 I4]]]. split; [exact I1|]. split; [destruct I2; [left; auto|right; right; auto]|].
+          split; [exact I3|]. intros x [Ex|Hx]; [|apply I4; exact Hx]. subst x.
+          eapply x_leb_trans; [exact I3|]. apply x_ltb_false_leb; assumption. }
+    destruct (Hgen x0 H0 Hr) as [G1 [G2 [G3 G4]]]. split; [exact G1|]. split.
+    - destruct G2 as [G2|G2]; [left; symmetry; exact G2|right; exact G2].
+    - intros x [Ex|Hx]; [subst; exact G3|apply G4; exact Hx].
+  Qed.
+
+  (* what one iteration does to one track *)
+  Definition gacc (y : Q) (t : track XQ) : bool :=
+    aff t && x_ltb (Fin 0) (x_mul (Fin y) (p t)) && x_leb (x_add (prop t) (x_mul (Fin y) (p t))) (x_add (limit t) (Fin T_q)).
+
+  Lemma bump_gacc y t : bump aff p prop limit (Fin y) t =
+    if gacc y t then set_incurred t (x_add (incurred t) (x_mul (Fin y) (p t))) else t.
+  Proof. unfold bump, gacc. destruct (aff t); [|reflexivity]. cbv zeta. rewrite threshold_xq. xq0. cbn [andb]. reflexivity. Qed.
+
+  Lemma wt_bump y t : wt t -> 0 < y -> wt (bump aff p prop limit (Fin y) t).
+  Proof.
+    intros Hw Hy. rewrite bump_gacc. destruct (gacc y t) eqn:Ea; [|exact Hw].
+    destruct Hw as [[b Eb] [[i [Ei Hi]] [[f [Ef Hf]] Hl]]]. unfold wt. rewrite prop_inc, p_inc, limit_inc.
+    split; [eauto|]. split; [|split; [eauto|exact Hl]].
+    cbn [incurred set_incurred]. rewrite Ei, Ef. cbn [x_mul x_add]. exists (i + y * f). split; [reflexivity|]. nra.
+  Qed.
+
+  Lemma grow_bump_mono y t : wt t -> 0 < y -> grow (bump aff p prop limit (Fin y) t) = true -> grow t = true.
+  Proof.
+    intros Hw Hy. rewrite bump_gacc. destruct (gacc y t) eqn:Ea; [|auto].
+    destruct Hw as [[b Eb] [[i [Ei Hi]] [[f [Ef Hf]] Hl]]].
+    unfold grow, growable. rewrite prop_inc, limit_inc, aff_inc. cbn [incurred set_incurred]. rewrite Eb, Ei, Ef. xq0.
+    cbn [x_mul x_add]. intro Hx. apply andb_true_iff in Hx. destruct Hx as [H1 H2]. rewrite H2, andb_true_r.
+    destruct Hl as [El|[l El]]; rewrite El in *; [reflexivity|]. apply x_ltb_fin in H1. apply x_ltb_fin. nra.
+  Qed.
+
+  Lemma gapply_fst y sp ts : Forall wt ts ->
+    exists sp', fst (apply_increase aff p prop limit (Fin y) (Fin sp) ts) = Fin sp'
+                /\ sp' == sp - y * fsumq (filter (gacc y) ts).
+  Proof.
+    revert sp. induction ts as [|t r IH]; intros sp Hw.
+    - exists sp. split; [reflexivity|]. simpl. lra.
+    - inversion Hw as [|? ? Ht Hr]; subst. cbn [apply_increase filter]. unfold gacc at 1. rewrite threshold_xq. xq0.
+      destruct (aff t); cbn [andb].
+      + destruct Ht as [_ [_ [[f [Ef Hf]] _]]].
+        destruct (x_ltb (Fin 0) (x_mul (Fin y) (p t)) && x_leb (x_add (prop t) (x_mul (Fin y) (p t))) (x_add (limit t) (Fin T_q))) eqn:E.
+        * rewrite Ef. cbn [x_mul x_sub x_neg x_add]. destruct (IH (sp + - (y * f)) Hr) as [sp' [E1 E2]].
+          destruct (apply_increase aff p prop limit (Fin y) (Fin (sp + - (y * f))) r) as [s0 r0]. simpl in E1. subst s0.
+          exists sp'. split; [reflexivity|]. rewrite E2. cbn [fsumq]. unfold qf_of. rewrite Ef. simpl. lra.
+        * destruct (IH sp Hr) as [sp' [E1 E2]]. destruct (apply_increase aff p prop limit (Fin y) (Fin sp) r) as [s0 r0].
+          simpl in E1. subst s0. exists sp'. split; [reflexivity|exact E2].
+      + destruct (IH sp Hr) as [sp' [E1 E2]]. destruct (apply_increase aff p prop limit (Fin y) (Fin sp) r) as [s0 r0].
+        simpl in E1. subst s0. exists sp'. split; [reflexivity|exact E2].
+  Qed.
+
+  Lemma fsumq_filter_le (a b : track XQ -> bool) ts : Forall wt ts ->
+    (forall t, In t ts -> a t = true -> 0 < qf_of t -> b t = true) -> fsumq (filter a ts) <= fsumq (filter b ts).
+  Proof.
+    induction ts as [|t r IH]; intros Hw Hab; simpl; [lra|]. inversion Hw as [|? ? Ht Hr]; subst.
+    assert (Hrec : fsumq (filter a r) <= fsumq (filter b r)) by (apply IH; [exact Hr|intros; apply Hab; [right|..]; assumption]).
+    assert (Hf : 0 <= qf_of t) by (destruct Ht as [_ [_ [[f [Ef Hf]] _]]]; unfold qf_of; rewrite Ef; exact Hf).
+    destruct (a t) eqn:Ea; destruct (b t) eqn:Eb; cbn [fsumq]; try lra.
+    destruct (Qlt_le_dec 0 (qf_of t)) as [Hp|Hz]; [|lra].
+    rewrite (Hab t (or_introl eq_refl) Ea Hp) in Eb. discriminate.
+  Qed.
+
+  Lemma gstep_progress sp ts s' ts' : Forall wt ts -> gstep (Fin sp) ts = Some (s', ts') ->
+    Forall wt ts' /\ exists sp', s' = Fin sp' /\ ((GG ts' < GG ts)%nat \/ sp' <= 0).
+  Proof.
+    intros Hw Hstep. unfold gstep, distribute_step in Hstep. rewrite threshold_xq in Hstep. xq0.
+    destruct (x_ltb (Fin T_q) (Fin sp)) eqn:Esp; [|discriminate]. apply x_ltb_fin in Esp.
+    fold grow in Hstep. set (g := filter grow ts) in *.
+    assert (Hgin : forall t, In t g -> In t ts /\ grow t = true) by (intro t; unfold g; apply filter_In).
+    assert (Hwg : Forall wt g).
+    { apply Forall_forall. intros t Ht. rewrite Forall_forall in Hw. apply Hw. apply (Hgin t Ht). }
+    destruct (psum_fin g Hwg) as [ps [Eps [Hps Hps0]]]. rewrite Eps in Hstep.
+    destruct (x_eqb (Fin ps) (Fin 0)) eqn:Ez; [discriminate|].
+    assert (Hpsp : 0 < ps).
+    { destruct (Qlt_le_dec 0 ps); [assumption|]. exfalso. assert (ps == 0) by lra.
+      assert (x_eqb (Fin ps) (Fin 0) = true) by (apply x_eqb_fin; assumption). congruence. }
+    assert (Hgne : g <> []).
+    { intro Hn. rewrite Hn in Hps. simpl in Hps. lra. }
+    change (fun t : track XQ => x_div (x_sub (limit t) (prop t)) (p t)) with room in Hstep.
+    assert (Hrl : Forall lb (map room g)).
+    { apply Forall_map. apply Forall_forall. intros t Ht. destruct (Hgin t Ht) as [Hin Hg]. rewrite Forall_forall in Hw.
+      destruct (room_cases t (Hw t Hin) Hg) as [E|[r [f [l [b [E _]]]]]]; rewrite E; exact I. }
+    assert (Hmne : map room g <> []) by (destruct g; [congruence|discriminate]).
+    destruct (lb_min_by_first (map room g) Hmne Hrl) as [Mlb [Min Mle]].
+    assert (Hdiv : x_div (Fin sp) (Fin ps) = Fin (sp / ps)) by (simpl; rewrite (q_sign_pos ps Hpsp); reflexivity).
+    rewrite Hdiv in Hstep.
+    assert (Hdivpos : 0 < sp / ps) by (apply Qlt_shift_div_l; [exact Hpsp|pose proof T_q_pos; lra]).
+    (* the increase of the iteration *)
+    assert (Hy : exists y, x_min (min_by_first (map room g)) (Fin (sp / ps)) = Fin y /\ 0 < y /\ y <= sp / ps /\
+                           x_leb (Fin y) (min_by_first (map room g)) = true /\
+                           (y == sp / ps \/ min_by_first (map room g) = Fin y)).
+    { destruct (min_by_first (map room g)) as [m| | |] eqn:Em; try contradiction.
+      - assert (Hmpos : 0 < m).
+        { apply in_map_iff in Min. destruct Min as [t [Et Ht]]. destruct (Hgin t Ht) as [Hin Hg]. rewrite Forall_forall in Hw.
+          destruct (room_cases t (Hw t Hin) Hg) as [E|[r [f [l [b [E [Hr _]]]]]]]; rewrite E in Et; [discriminate|]. inversion Et; subst. exact Hr. }
+        unfold x_min. cbn [x_is_nan]. destruct (x_ltb (Fin (sp / ps)) (Fin m)) eqn:E.
+        + apply x_ltb_fin in E. exists (sp / ps). split; [reflexivity|]. split; [exact Hdivpos|]. split; [lra|].
+          split; [apply x_leb_fin; lra|left; reflexivity].
+        + apply x_ltb_fin_false in E. exists m. split; [reflexivity|]. split; [exact Hmpos|]. split; [lra|].
+          split; [apply x_leb_fin; lra|right; reflexivity].
+      - exists (sp / ps). unfold x_min. cbn [x_is_nan x_ltb]. split; [reflexivity|]. split; [exact Hdivpos|]. split; [lra|].
+        split; [reflexivity|left; reflexivity]. }
+    destruct Hy as [y [Ey [Hypos [Hyle [Hym Hycase]]]]]. rewrite Ey in Hstep.
+    inversion Hstep as [Hres]. clear Hstep.
+    assert (Ets : ts' = map (bump aff p prop limit (Fin y)) ts).
+    { rewrite <- (apply_increase_map aff p prop limit (Fin y) (Fin sp) ts). rewrite Hres. reflexivity. }
+    destruct (gapply_fst y sp ts Hw) as [sp' [Es1 Es2]]. rewrite Hres in Es1. simpl in Es1.
+    split.
+    - subst ts'. apply Forall_forall. intros t' Hin'. apply in_map_iff in Hin'. destruct Hin' as [t [Et Hin]]. subst t'.
+      rewrite Forall_forall in Hw. apply wt_bump; auto.
+    - exists sp'. split; [exact Es1|].
+      (* every growable track with a positive proportion accepts *)
+      assert (Hacc : forall t, In t ts -> grow t = true -> 0 < qf_of t -> gacc y t = true).
+      { intros t Hin Hg Hfp. rewrite Forall_forall in Hw. pose proof (Hw t Hin) as Hwt.
+        assert (Hroom : x_leb (Fin y) (room t) = true).
+        { eapply x_leb_trans; [exact Hym|]. apply Mle. apply in_map. unfold g. apply filter_In. auto. }
+        destruct Hwt as [[b Eb] [[i [Ei Hi]] [[f [Ef Hf]] Hl]]]. unfold qf_of in Hfp. rewrite Ef in Hfp. simpl in Hfp.
+        unfold gacc. unfold grow, growable in Hg. apply andb_true_iff in Hg. destruct Hg as [_ Ha]. rewrite Ha, Eb, Ef. cbn [x_mul x_add andb].
+        assert (H1 : x_ltb (Fin 0) (Fin (y * f)) = true) by (apply x_ltb_fin; nra). rewrite H1. cbn [andb].
+        destruct Hl as [El|[l El]]; rewrite El; [reflexivity|]. cbn [x_add]. apply x_leb_fin.
+        unfold room in Hroom. rewrite El, Eb, Ef in Hroom. cbn [x_sub x_neg x_add x_div] in Hroom. rewrite (q_sign_pos f Hfp) in Hroom.
+        apply x_leb_fin in Hroom. assert (y * f <= l - b).
+        { apply (Qmult_le_r _ _ f Hfp) in Hroom. assert ((l + - b) / f * f == l - b) by (field; lra). lra. }
+        pose proof T_q_pos. lra. }
+      destruct Hycase as [Hyeq|Hmeq].
+      + (* the space is exhausted *)
+        right. assert (Hle : fsumq g <= fsumq (filter (gacc y) ts)).
+        { unfold g. apply fsumq_filter_le; [exact Hw|]. intros t Hin Hg Hfp. apply Hacc; assumption. }
+        rewrite Es2. assert (y * ps == sp) by (rewrite Hyeq; field; lra). nra.
+      + (* the track with the least head-room stops being growable *)
+        left. rewrite Hmeq in Min. apply in_map_iff in Min. destruct Min as [tm [Etm Htm]]. destruct (Hgin tm Htm) as [Htm_in Htm_g].
+        rewrite Forall_forall in Hw. pose proof (Hw tm Htm_in) as Hwm.
+        destruct (room_cases tm Hwm Htm_g) as [E|[r [f [l [b [E [Hr [Ef [Hf [El [Eb Hrf]]]]]]]]]]]; rewrite E in Etm; [discriminate|].
+        inversion Etm; subst r. subst ts'. unfold GG. apply filter_map_count_lt.
+        * intros t Hin Hgt. apply (grow_bump_mono y t (Hw t Hin) Hypos Hgt).
+        * exists tm. split; [exact Htm_in|]. split; [exact Htm_g|].
+          assert (Ea : gacc y tm = true) by (apply Hacc; auto; unfold qf_of; rewrite Ef; exact Hf).
+          rewrite bump_gacc, Ea. unfold grow, growable. rewrite prop_inc, limit_inc. cbn [incurred set_incurred].
+          destruct Hwm as [_ [[i [Ei Hi]] _]]. rewrite Eb, El, Ei, Ef. xq0. cbn [x_mul x_add].
+          assert (Hx : x_ltb (Fin (b + (i + y * f))) (Fin l) = false) by (apply x_ltb_fin_false; lra). rewrite Hx. reflexivity.
+  Qed.
+
+  Lemma gstep_none_nonpos sp ts : sp <= 0 -> gstep (Fin sp) ts = None.
+  Proof.
+    intro Hsp. unfold gstep, distribute_step. rewrite threshold_xq. xq0.
+    destruct (x_ltb (Fin T_q) (Fin sp)) eqn:E; [|reflexivity]. apply x_ltb_fin in E. pose proof T_q_pos. lra.
+  Qed.
+  Lemma gstep_none_G0 space ts : GG ts = 0%nat -> gstep space ts = None.
+  Proof.
+    intro Hg. unfold gstep, distribute_step. destruct (ltb threshold space); [|reflexivity].
+    fold grow. unfold GG in Hg. apply length_zero_iff_nil in Hg. rewrite Hg. reflexivity.
+  Qed.
+
+  Theorem gloop_terminates n : forall sp ts fuel, Forall wt ts -> (GG ts <= n)%nat -> (n + 1 <= fuel)%nat ->
+    gloop fuel (Fin sp) ts = gloop (n + 1) (Fin sp) ts.
+  Proof.
+    induction n as [|n IH]; intros sp ts fuel Hok Hg Hfuel.
+    - assert (GG ts = 0%nat) by lia. destruct fuel as [|f]; [lia|].
+      unfold gloop. simpl. fold gstep. rewrite (gstep_none_G0 _ _ H). reflexivity.
+    - destruct fuel as [|f]; [lia|]. replace (S n + 1)%nat with (S (n + 1)) by lia.
+      unfold gloop. cbn [distribute_loop]. fold gstep. fold gloop.
+      destruct (gstep (Fin sp) ts) as [[s' ts']|] eqn:Es; [|reflexivity].
+      destruct (gstep_progress _ _ _ _ Hok Es) as [Hok' [sp' [E' Hd]]]. subst s'.
+      destruct Hd as [Hd|Hd].
+      + rewrite (IH sp' ts' f Hok'); [|lia|lia]. reflexivity.
+      + destruct f as [|f]; [lia|]. replace (n + 1)%nat with (S n) by lia.
+        unfold gloop. cbn [distribute_loop]. fold gstep. rewrite (gstep_none_nonpos _ _ Hd). reflexivity.
+  Qed.
+End GenDistribute.
+
+(* the parameters with which 11.5 (and 11.6) call distribute_space_up_to_limits do not look at item_incurred_increase *)
+Lemma frame_params (inner : option XQ) :
+  (forall (t : track XQ) x, base_size (set_incurred t x) = base_size t) /\
+  (forall (t : track XQ) x, limit_or_base (set_incurred t x) = limit_or_base t) /\
+  (forall (t : track XQ) x, growth_limit (set_incurred t x) = growth_limit t) /\
+  (forall (t : track XQ) x, fit_content_limited_growth_limit inner (set_incurred t x) = fit_content_limited_growth_limit inner t) /\
+  (forall (t : track XQ) x, fit_content_limit inner (set_incurred t x) = fit_content_limit inner t) /\
+  (forall (t : track XQ) x, flex_factor (set_incurred t x) = flex_factor t) /\
+  (forall (t : track XQ) x, is_flexible (set_incurred t x) = is_flexible t) /\
+  (forall (t : track XQ) x, minf (set_incurred t x) = minf t /\ maxf (set_incurred t x) = maxf t).
+Proof. repeat split; intros t x; destruct t; reflexivity. Qed.
+
+Theorem distribute_fuel_enough aff p prop limit
+  (aff_inc : forall t x, aff (set_incurred t x) = aff t) (p_inc : forall t x, p (set_incurred t x) = p t)
+  (prop_inc : forall t x, prop (set_incurred t x) = prop t) (limit_inc : forall t x, limit (set_incurred t x) = limit t)
+  sp (ts : list (track XQ)) k :
+  Forall (wt p prop limit) ts ->
+  distribute_loop aff p prop limit (distribute_fuel ts + k) (Fin sp) ts = distribute_loop aff p prop limit (distribute_fuel ts) (Fin sp) ts.
+Proof.
+  intro Hw.
+  assert (Hg : (GG aff prop limit ts <= length ts)%nat).
+  { unfold GG. clear. induction ts as [|a l IH]; simpl; [lia|]. destruct (grow aff prop limit a); simpl; lia. }
+  pose proof (gloop_terminates aff p prop limit aff_inc p_inc prop_inc limit_inc (length ts) sp ts) as HT. unfold gloop in HT.
+  rewrite (HT (distribute_fuel ts + k)%nat Hw Hg); [|unfold distribute_fuel; lia].
+  rewrite (HT (distribute_fuel ts) Hw Hg); [|unfold distribute_fuel; lia]. reflexivity.
+Qed.
